@@ -395,6 +395,104 @@ impl Family for Utf8Offsets {
     }
 }
 
+/// Statements every real client library sends on its own (session set-up, transaction control,
+/// introspection) and statements that merely look like the two the library answers itself: each
+/// must be routed by the stated rules only - handed to the shim verbatim unless it is `USE <name>`
+/// or starts with `SELECT @@` - as COM_QUERY and as COM_STMT_PREPARE, in two orders.
+pub struct ClientStatements;
+impl ClientStatements {
+    pub fn texts() -> Vec<&'static str> {
+        vec![
+            "SET NAMES utf8mb4",
+            "SET NAMES latin1",
+            "SET NAMES 'utf8' COLLATE 'utf8_general_ci'",
+            "SET CHARACTER SET utf8",
+            "SET autocommit=1",
+            "SET autocommit=0",
+            "SET sql_mode='STRICT_TRANS_TABLES'",
+            "SET SESSION TRANSACTION ISOLATION LEVEL READ COMMITTED",
+            "SET @a = 1",
+            "SET @@session.max_allowed_packet = 1024",
+            "BEGIN",
+            "START TRANSACTION",
+            "COMMIT",
+            "ROLLBACK",
+            "SAVEPOINT s1",
+            "SHOW VARIABLES LIKE 'max_allowed_packet'",
+            "SHOW WARNINGS",
+            "SHOW DATABASES",
+            "SHOW SESSION STATUS",
+            "SELECT DATABASE()",
+            "SELECT VERSION()",
+            "SELECT CONNECTION_ID()",
+            "SELECT USER()",
+            "SELECT 1",
+            "SELECT NOW()",
+            "SELECT LAST_INSERT_ID()",
+            "SELECT @@",
+            "SELECT  @@version",
+            "SELECT\t@@version",
+            " SELECT @@version",
+            "(SELECT @@version)",
+            "/* mysql-connector */ SELECT @@version_comment LIMIT 1",
+            "/* ping */ SELECT 1",
+            "-- USE db",
+            "# USE db",
+            "KILL QUERY 1",
+            "DO 1",
+            "PING",
+            "QUIT",
+            "EXPLAIN SELECT 1",
+            "USE",
+            "USE ",
+            "USER db",
+            "USE`db`",
+            "USING db",
+            "DESCRIBE t",
+            "LOCK TABLES t READ",
+            "UNLOCK TABLES",
+            "FLUSH TABLES",
+            "RESET QUERY CACHE",
+            "PREPARE s FROM 'SELECT 1'",
+            "EXECUTE s",
+            "DEALLOCATE PREPARE s",
+            "CHANGE MASTER TO MASTER_HOST='x'",
+            "",
+            ";",
+            "\0",
+        ]
+    }
+}
+impl Family for ClientStatements {
+    fn ambient(&self, idx: u64) -> u64 {
+        crate::engine::rot(idx)
+    }
+    fn name(&self) -> String {
+        "statements-client-libraries-send-on-their-own".into()
+    }
+    fn len(&self) -> u64 {
+        Self::texts().len() as u64 * 3
+    }
+    fn run(&self, idx: u64, st: &mut Stats) -> Result<(), Violation> {
+        let t = Self::texts()[(idx / 3) as usize];
+        st.nontrivial += 1;
+        st.bump("client_statements");
+        let cmds = match idx % 3 {
+            0 => vec![with_byte(COM_QUERY, t.as_bytes()), vec![COM_PING], with_byte(COM_QUERY, b"after")],
+            1 => vec![with_byte(COM_STMT_PREPARE, t.as_bytes()), vec![COM_PING], with_byte(COM_QUERY, b"after")],
+            _ => vec![with_byte(COM_QUERY, b"before"), with_byte(COM_QUERY, t.as_bytes()), with_byte(COM_QUERY, t.as_bytes()), vec![COM_PING]],
+        };
+        check_routing(&cmds, st).map_err(|mut v| {
+            v.msg = format!("statement {:?} ({}): {}", t, ["query", "prepare", "query twice behind another"][(idx % 3) as usize], v.msg);
+            v
+        })
+    }
+    fn describe(&self, idx: u64) -> J {
+        let t = Self::texts()[(idx / 3) as usize];
+        json!({"statement": t, "as": idx % 3})
+    }
+}
+
 pub fn build(quick: bool) -> Check {
     let alpha = alphabet();
     let n = alpha.len();
@@ -436,10 +534,11 @@ pub fn build(quick: bool) -> Check {
     families.push(Box::new(UseFamily { spellings: use_spellings() }));
     families.push(Box::new(IdPairs));
     families.push(Box::new(Utf8Offsets));
+    families.push(Box::new(ClientStatements));
     Check {
         id: "C02",
         level: "model_checking",
-        rule: format!("all command sequences of length <= {} over an alphabet of {} commands (near-miss prefixes, invalid UTF-8, statement ids at width boundaries, COM_INIT_DB names with edge whitespace/backticks/semicolons, quit mid-sequence) and of length <= 6 (thorough: 7) over 8 statement commands (two statements of different shape prepared / executed / closed in every order), pipelined on one connection; every USE spelling of the stated grammar in 3 positions; every ordered pair of statement ids from a 24-value palette prepared, executed and closed in both orders; USE names ending/starting with every character U+00C0..U+00FF and 3-/4-byte characters; query / prepare / init-db / USE texts with a multi-byte character at every byte offset 0..12. Long scripted sessions: 130..4099 (thorough: up to 131101) ordinary commands of every kind on one connection in up to six mixes (even, prepare/close churn with growing ids, executions, long-data chunks, unanswered commands, text and library-answered commands) under several client/transport behaviours (pipelined, request ids advancing by 7, lock-step, 1..4093-byte reads, 7/11-byte writes), generated by a fixed rule, kept valid with the registry model and judged on the complete trace (callbacks with arguments, result, strict decode of every reply with its sequence ids). Oracle: routing model (exact callback log, run_on result, strict decode of all replies). Non-trivial = sequence mixes at least two command kinds.", if quick {4} else {5}, n),
+        rule: format!("all command sequences of length <= {} over an alphabet of {} commands (near-miss prefixes, invalid UTF-8, statement ids at width boundaries, COM_INIT_DB names with edge whitespace/backticks/semicolons, quit mid-sequence), 57 statements client libraries send on their own or that merely look like USE / SELECT @@ (as query and as prepare), and of length <= 6 (thorough: 7) over 8 statement commands (two statements of different shape prepared / executed / closed in every order), pipelined on one connection; every USE spelling of the stated grammar in 3 positions; every ordered pair of statement ids from a 24-value palette prepared, executed and closed in both orders; USE names ending/starting with every character U+00C0..U+00FF and 3-/4-byte characters; query / prepare / init-db / USE texts with a multi-byte character at every byte offset 0..12. Long scripted sessions: 130..4099 (thorough: up to 131101) ordinary commands of every kind on one connection in up to six mixes (even, prepare/close churn with growing ids, executions, long-data chunks, unanswered commands, text and library-answered commands) under several client/transport behaviours (pipelined, request ids advancing by 7, lock-step, 1..4093-byte reads, 7/11-byte writes), generated by a fixed rule, kept valid with the registry model and judged on the complete trace (callbacks with arguments, result, strict decode of every reply with its sequence ids). Oracle: routing model (exact callback log, run_on result, strict decode of all replies). Non-trivial = sequence mixes at least two command kinds.", if quick {4} else {5}, n),
         assumptions: vec![
             "for text that is not valid UTF-8 the property only says it is never handed to the shim: both 'connection ends with an error' and 'command skipped' are accepted".into(),
             "mixed-case spellings (Select @@x, Use db) are not in the alphabet because the property does not say how they route".into(),
@@ -448,6 +547,6 @@ pub fn build(quick: bool) -> Check {
         exhaustive: true,
         caps_hit: vec![],
         families,
-        required: vec!["soak_sessions", "utf8_offsets", "id_pairs", "sequences_with_invalid_utf8", "sequences_ending_in_error", "use_spellings_run"],
+        required: vec!["soak_sessions", "client_statements", "utf8_offsets", "id_pairs", "sequences_with_invalid_utf8", "sequences_ending_in_error", "use_spellings_run"],
     }
 }
